@@ -768,7 +768,7 @@ class ThreadsSim(Simulator):
                 "of nodes that are also derived nodes of another root; setup ops; 1-4 client threads with 3-40 API calls "
                 "on shared wallet/node/generator objects incl. new wallet objects built mid-history; teardown "
                 "re-observation) executed under the baton scheduler with a seeded pre-emption policy (Bernoulli, "
-                "conflict-biased, sparse, site-uniform atomicity tests, operation-granular, or none for the single-client "
+                "conflict-biased, sparse, site-uniform and publication-site atomicity tests, operation-granular, or none for the single-client "
                 "history batch) at line or instruction granularity; every observation is compared with the same request "
                 "on fresh objects in a freshly forked history-free child. A run is non-trivial if at least one context switch happened and "
                 "at least one handle was used by two clients (multi-client), or >=4 operations shared objects "
